@@ -57,15 +57,16 @@ SameAsSpec(sp, e) ==
           IF e.gj[i].k = "v" THEN sp.out[i] = e.gj[i]
           ELSE sp.out[i].k = "e" /\ sp.out[i].u = e.gj[i].u /\ (e.gj[i].u => sp.out[i].v = e.gj[i].v)
     /\ sp.side = e.gj_side
-Drift(e) == ~Has(e, "gj_compile") /\ ~RefBroken(e) /\ LET sp == SpecOf(e) IN sp.core /\ ~SameAsSpec(sp, e)
-InCore(e) == ~Has(e, "gj_compile") /\ ~RefBroken(e) /\ SpecOf(e).core
+Judge(e) == IF Has(e, "gj_compile") \/ RefBroken(e) THEN "none"
+            ELSE LET sp == SpecOf(e) IN
+                 IF ~sp.core THEN "none" ELSE IF SameAsSpec(sp, e) THEN "core" ELSE "drift"
 
 TInit == l = 1
 TNext == /\ l <= Len(Trace)
-         /\ LET e == Trace[l] s == Sig(e) IN
+         /\ LET e == Trace[l] s == Sig(e) j == Judge(e) IN
               /\ IF s = "ok" THEN TRUE ELSE PrintT(<<"REJECT", l, s>>)
-              /\ IF Drift(e) THEN PrintT(<<"DRIFT", l>>) ELSE TRUE
-              /\ IF ~Has(e, "spec") /\ InCore(e) THEN PrintT(<<"CORE", l>>) ELSE TRUE
+              /\ IF j = "drift" THEN PrintT(<<"DRIFT", l>>) ELSE TRUE
+              /\ IF ~Has(e, "spec") /\ j # "none" THEN PrintT(<<"CORE", l>>) ELSE TRUE
          /\ l' = l + 1
 TSpec == TInit /\ [][TNext]_l
 Consumed == TLCGet("stats").diameter - 1 = Len(Trace)
